@@ -164,6 +164,8 @@ PREDICATES['has_key_rec'] = (['h'], '"__MessageType" in h')
 
 EXTERNS.update({
   'Queue.put': dict(params=[('item', 'any')], notes='gevent Queue: unbounded, put does not block'),
+  'Queue.empty': dict(params=[], returns='bool', notes='whether anything is queued right now (either answer is possible at any time)'),
+  'Queue.qsize': dict(params=[], returns='int', ensures=['result >= 0']),
   'Exception.__init__': dict(params=[('m', 'any')], returns='any', ensures=['result is not None'], allocates=True),
 })
 
